@@ -1088,6 +1088,11 @@ class FD:
             for t in st.targets:
                 self.assign(t, v, env)
             return
+        if isinstance(st, ast.AnnAssign):
+            # `name: Type = value` is an assignment (the annotation is not evaluated); a bare annotation binds nothing
+            if st.value is None:
+                return
+            return self.stmt(ast.copy_location(ast.Assign(targets=[st.target], value=st.value), st), env)
         if isinstance(st, ast.AugAssign):
             cur = self.eval(st.target, env)
             rhs = self.eval(st.value, env)
